@@ -35,6 +35,9 @@ struct Parts {
     /// registry: the instance spawned on demand after A's failure fails in started() as well,
     /// while another client installs a healthy instance with replace(): the healthy one stays
     respawn_race: bool,
+    /// the owner has a join in flight (polled once, pending) from before the failure and asks
+    /// for a second one after it: both resolve, neither with the actor
+    inflight_join: bool,
 }
 
 struct S {
@@ -157,7 +160,12 @@ impl Scene for S {
             exec.spawn_client(AWAITER, run_client(AWAITER, Handles::with_addr(a.clone()), vec![Op::Await(H::Addr(0))]));
             let mut oh = Handles::default();
             oh.own.push(Some(owning));
-            exec.spawn_client(OWNER, run_client(OWNER, oh, vec![Op::Join(H::Own(0)), Op::Join(H::Own(0))]));
+            let owner_ops = if p.inflight_join {
+                vec![Op::JoinStart(H::Own(0)), Op::JoinPollOnce(0), Op::Sleep(9), Op::Join(H::Own(0)), Op::JoinAwait(0)]
+            } else {
+                vec![Op::Join(H::Own(0)), Op::Join(H::Own(0))]
+            };
+            exec.spawn_client(OWNER, run_client(OWNER, oh, owner_ops));
         } else {
             drop(owning.detach());
         }
@@ -313,13 +321,13 @@ impl Scene for S {
                 if o.c == AWAITER && o.i == 0 {
                     crate::check::oblige("await-error");
                 }
-                if o.c == OWNER && o.i <= 1 {
+                if o.c == OWNER && matches!(o.res, Some(Res::Joined(_) | Res::None)) {
                     crate::check::oblige("join-none");
                 }
                 if o.c == AWAITER && o.i == 0 && o.ok() {
                     v("await-error", format!("C06/await-ok-after-failure/cause={ck}"), "awaiting A returned Ok although A failed".into());
                 }
-                if o.c == OWNER && o.i <= 1 && matches!(o.res, Some(Res::Joined(_))) {
+                if o.c == OWNER && matches!(o.res, Some(Res::Joined(_))) {
                     v("join-none", format!("C06/join-some-after-failure/cause={ck}"), "join returned A although it failed".into());
                 }
             }
@@ -477,6 +485,7 @@ fn base_cases(tier: Tier) -> Vec<Case> {
     let subs: Vec<(&str, Parts)> = vec![
         ("pending+later-ops", Parts { late_ops: true, ..Parts::default() }),
         ("awaiters+owner", Parts { awaiters: true, late_ops: true, ..Parts::default() }),
+        ("awaiters+owner with a join in flight", Parts { awaiters: true, inflight_join: true, ..Parts::default() }),
         ("bystander", Parts { bystander: true, ..Parts::default() }),
         ("children", Parts { children: true, ..Parts::default() }),
         ("timers", Parts { timers: true, ..Parts::default() }),
@@ -488,7 +497,7 @@ fn base_cases(tier: Tier) -> Vec<Case> {
         ("timers, the start of a restart fails", Parts { timers: true, on_restart: true, ..Parts::default() }),
         ("children+later-ops, the start of a restart fails", Parts { children: true, late_ops: true, on_restart: true, ..Parts::default() }),
     ];
-    let full = Parts { bystander: true, children: true, timers: true, registry: true, awaiters: true, late_ops: true, broker: false, on_restart: false, respawn_race: false };
+    let full = Parts { bystander: true, children: true, timers: true, registry: true, awaiters: true, late_ops: true, broker: false, on_restart: false, respawn_race: false, inflight_join: false };
     let mbs: &[Mailbox] = if tier == Tier::Quick { &[Mailbox::U] } else { &[Mailbox::U, Mailbox::B(1)] };
     for cause in causes(tier) {
         for &mb in mbs {
@@ -506,7 +515,8 @@ fn base_cases(tier: Tier) -> Vec<Case> {
                 }
                 v.push(Case {
                     desc: format!("containment sub={name} cause={cause:?} mailbox={}", mb.name()),
-                    exec: ExecCfg { horizon: 30, cancel: if let Cause::Cancel(j) = cause { Some((a_index, j)) } else { None }, ..ExecCfg::default() },
+                    // (a join "in flight" may or may not have got past the handle's lock on its one poll)
+                    exec: ExecCfg { horizon: 30, cancel: if let Cause::Cancel(j) = cause { Some((a_index, j)) } else { None }, lock_yield_is_choice: parts.inflight_join, ..ExecCfg::default() },
                     bound: if big { Some(if tier == Tier::Quick { 4 } else { 6 }) } else { None },
                     scene: Box::new(S { parts: *parts, cause, mailbox: mb }),
                 });
